@@ -137,7 +137,15 @@ def run_regress(prop, stats, check_case_fn):
         with open(path) as f:
             payload = json.load(f)
         schema, tname, val = case_from_payload(payload)
-        bad = check_case_fn(schema, tname, val)
+        det = payload['case'].get('details') or {}
+        fault = payload['case'].get('fault')
+        if fault is None and 'input' in det and 'endianness' in det:
+            fault = {'input': det['input'], 'endianness': det['endianness']}
+        import inspect
+        if 'fault' in inspect.signature(check_case_fn).parameters:
+            bad = check_case_fn(schema, tname, val, fault=fault)
+        else:
+            bad = check_case_fn(schema, tname, val)
         stats.notes['regress_cases'] += 1
         if bad:
             rw = RefWire(schema)
@@ -147,3 +155,43 @@ def run_regress(prop, stats, check_case_fn):
             else:
                 stats.violations.append({'what': 'regression input %s: %s' % (os.path.basename(path), bad[0]),
                                          'case': case_payload(schema, tname, val, bad[1])})
+
+
+# ---------------------------------------------------------------------------------------------- X3
+def _contains_limited(schema, tname, seen=None):
+    t = schema.resolve(tname)
+    if isinstance(t, ir.Union):
+        return any(_contains_limited(schema, a.type) for a in t.arms)
+    if not isinstance(t, ir.Struct):
+        return False
+    for m in t.members:
+        if m.kind == ir.LIMARR:
+            return True
+        if not m.is_bytes and m.type not in ir.NUMERIC and _contains_limited(schema, m.type):
+            return True
+    return False
+
+
+def has_x3_trigger(schema, rw, tname, _seen=None):
+    """Type reaches an optional field whose (fixed) struct type holds a limited array and has wire alignment < 8:
+    the C++ full codec then pads the flag to the C++ ABI alignment (8) of the std::vector inside."""
+    seen = _seen if _seen is not None else set()
+    t = schema.resolve(tname)
+    if isinstance(t, str) or isinstance(t, ir.Enum) or t.name in seen:
+        return False
+    seen.add(t.name)
+    if isinstance(t, ir.Union):
+        return any(has_x3_trigger(schema, rw, a.type, seen) for a in t.arms)
+    for m in t.members:
+        if m.is_bytes or m.type in ir.NUMERIC:
+            continue
+        if m.kind == ir.OPT and _contains_limited(schema, m.type) and rw.elem_layout(m.type)[1] < 8:
+            return True
+        if has_x3_trigger(schema, rw, m.type, seen):
+            return True
+    return False
+
+
+@predicate('X3')
+def _x3(prop, schema, rw, tname, val, bad):
+    return has_x3_trigger(schema, rw, tname)
